@@ -516,6 +516,14 @@ Section RootItem.
     rewrite <- (reify_set_children St p d cs). f_equal. rewrite map_list_insert. f_equal.
     apply (reify_owned_key nk s' Hs).
   Qed.
+
+  Theorem bridge_replace_key_explicit sb nk (s' : bytes) (flag : bool) : St !! nk = Some s' ->
+    spec_replace_key St F (Some p) (Some sb) (Some x) flag (Some nk) =
+    match found_member St flag (cstr s') cs with
+    | Some (k, _) => (set_children p (<[k := T x (rd_owned_key dx nk) csx]> cs) F0, true)
+    | None => (set_data x (rd_owned_key dx nk) F, false)
+    end.
+  Proof. intros Hs. exact (proj1 (bridge_replace_key sb nk s' flag Hs)). Qed.
 End RootItem.
 
 (** * 4. cJSON_Duplicate(item, 1) *)
